@@ -311,13 +311,22 @@ def handle_failure(pid, leg, profile, c, kind, oracle, known, violations, known_
         _, orc, err = common.run_model(fam, cs, leg.get("mask"), [oracle], workdir, "shrink", nshards=1)
         return (not err) and bool(orc[oracle])
 
-    if len(violations) < 1:
-        try:
-            small = common.shrink(c, still_fails, budget_s=25)
-            cs = common.run_harness(leg["family"], [small], profile, workdir, "shrunk")
-            small = cs[0]
-        except Exception as e:
-            small = c
+    # one report per (family, kind, oracle): a violation in one family must not hide one in another; only the first
+    # report of the run is minimised (the others keep the generated case)
+    key = (leg["family"], kind, oracle)
+    seen = getattr(handle_failure, "_seen", None)
+    if seen is None or seen[0] is not violations:
+        seen = (violations, set()); handle_failure._seen = seen
+    if key not in seen[1] and len(violations) < 6:
+        seen[1].add(key)
+        small = c
+        if len(violations) < 1:
+            try:
+                small = common.shrink(c, still_fails, budget_s=25)
+                cs = common.run_harness(leg["family"], [small], profile, workdir, "shrunk")
+                small = cs[0]
+            except Exception as e:
+                small = c
         payload = {"property": pid, "family": leg["family"], "profile": profile, "kind": kind, "oracle": oracle,
                    "panic": small.panic, "case": small.to_json(), "opnames": fam.OPNAMES,
                    "how_to_replay": "tools/check.py %s --replay <this file>" % pid}
